@@ -187,8 +187,15 @@ func handleSUR() diam.HandlerFunc {
 			sua.ServiceRating.Price = monetaryCost
 		// price for the reserved units
 		case charging_datatype.REQ_SUBTYPE_RESERVE:
-			sua.ServiceRating.AllowedUnits = sr.MonetaryQuota / unitCost
-			sua.ServiceRating.Price = sua.ServiceRating.AllowedUnits * unitCost
+			if unitCost == 0 {
+				// no usable tariff is stored (zero or unparsable unit cost): nothing can be priced
+				logger.RatingLog.Warnf("Unit cost of UE:[%s] RG:[%d] is 0, no units allowed", subscriberId, rg)
+				sua.ServiceRating.AllowedUnits = datatype.Unsigned32(0)
+				sua.ServiceRating.Price = datatype.Unsigned32(0)
+			} else {
+				sua.ServiceRating.AllowedUnits = sr.MonetaryQuota / unitCost
+				sua.ServiceRating.Price = sua.ServiceRating.AllowedUnits * unitCost
+			}
 		default:
 			logger.RatingLog.Warnf("Unknow request type")
 			sua.ServiceRating.AllowedUnits = datatype.Unsigned32(0)
